@@ -173,8 +173,26 @@ pub fn family(seed: u64, http: bool) -> Family {
     }
 }
 
+/// ids the harness makes up (imports, never-registered contexts): consecutive k are *numerically
+/// adjacent* ids whose increment carries over four byte boundaries (even k ends in ff ff ff ff, k + 1 is
+/// that plus one), so that contexts registered by import probe the [ctx, ctx + 1) range arithmetic
 pub fn foreign_id(t: u64, k: u32) -> Scru128Id {
-    Scru128Id::from_fields(BASE_MS + t * UNIT_MS, k, 0, 0)
+    let even = Scru128Id::from_fields(BASE_MS + t * UNIT_MS, k & !1, 0, 0xffff_ffff);
+    if k & 1 == 0 {
+        even
+    } else {
+        Scru128Id::from_u128(even.to_u128() + 1)
+    }
+}
+
+fn foreign_k(id: &Scru128Id) -> Option<i64> {
+    if id.counter_lo() == 0 && id.entropy() == 0xffff_ffff && id.counter_hi() & 1 == 0 {
+        Some(id.counter_hi() as i64)
+    } else if id.counter_lo() == 1 && id.entropy() == 0 && id.counter_hi() & 1 == 0 {
+        Some(id.counter_hi() as i64 + 1)
+    } else {
+        None
+    }
 }
 
 pub fn ttl_str(ttl: &Value) -> String {
@@ -499,7 +517,9 @@ impl Run {
     }
 
     pub fn op_read(&mut self, path: &str, ctx: Option<&str>, last: Option<&str>, lim: Option<u64>) {
-        let resp = self.call(json!({"op": "read", "path": path, "ctx": ctx, "last": last, "limit": lim}));
+        // `tail` without `follow`: no history, no live side - the read is empty (streaming path / HTTP only)
+        let tail = (path == "stream" || self.http) && self.rng.gen_range(0..12) == 0;
+        let resp = self.call(json!({"op": "read", "path": path, "ctx": ctx, "last": last, "limit": lim, "tail": tail}));
         if Self::failed(&resp) {
             return;
         }
@@ -515,7 +535,7 @@ impl Run {
             "ctx": ctx.map(idref).unwrap_or(json!(-1)),
             "last": last.map(idref).unwrap_or(json!(-2)),
             "lim": lim.map(|x| json!(x)).unwrap_or(json!(-1)),
-            "res": res, "status": resp["status"].as_i64().unwrap_or(0)});
+            "res": res, "status": resp["status"].as_i64().unwrap_or(0), "tail": tail});
         if let Some(p) = resp.get("panic") {
             ev["panic"] = p.clone();
         }
@@ -687,7 +707,7 @@ impl Run {
         let res: Vec<Value> = frames.iter().map(|f| self.abs_frame(f)).collect();
         self.events
             .push(json!({"e": "read", "path": "sync", "ctx": -1, "last": -2, "lim": -1, "res": res,
-                "status": resp["status"].as_i64().unwrap_or(0)}));
+                "status": resp["status"].as_i64().unwrap_or(0), "tail": false}));
         // contents
         let mut blobs: Vec<(String, Value)> = vec![];
         for f in &frames {
@@ -910,7 +930,7 @@ impl Run {
         let frames: Vec<Value> = r["frames"].as_array().cloned().unwrap_or_default();
         let res: Vec<Value> = frames.iter().map(|f| self.abs_frame(f)).collect();
         self.events.push(json!({"e": "read", "path": "sync", "ctx": -1, "last": -2, "lim": -1, "res": res,
-            "status": r["status"].as_i64().unwrap_or(0)}));
+            "status": r["status"].as_i64().unwrap_or(0), "tail": false}));
         let mut hashes: Vec<String> = frames.iter().filter_map(|f| f["hash"].as_str().map(|x| x.to_string())).collect();
         hashes.sort();
         hashes.dedup();
@@ -1032,8 +1052,8 @@ impl Run {
             }
             let t = (ts - BASE_MS) / UNIT_MS;
             let o = (ts - BASE_MS) % UNIT_MS;
-            if o == 0 && id.counter_lo() == 0 && id.entropy() == 0 && (id.counter_hi() as i64) < TRACE_W / 2 {
-                map.insert(s.clone(), t as i64 * TRACE_W + id.counter_hi() as i64);
+            if let (0, Some(k)) = (o, foreign_k(&id).filter(|k| *k < TRACE_W / 2)) {
+                map.insert(s.clone(), t as i64 * TRACE_W + k);
             } else {
                 per_t.entry(t).or_default().push((id.to_u128(), s.clone()));
             }
